@@ -36,13 +36,6 @@ for cl, ss in by_clause('C06', lambda e: 'late_registration' in e['signature']).
   finding('C06', cl, ss, 'a reference written with a selector that a LATER registration made ambiguous '
           '(`f.x = @foo`, then registering other.mod.foo) is omitted from config_str() although a longer '
           'selector would represent it')
-for cl, ss in by_clause('C06', lambda e: 'dotted_macro' in e['signature']).items():
-  finding('C06', cl, ss, 'a macro with a dotted name bound through bind_parameter(\'%pkg.name\', v) is '
-          'emitted as `pkg.name = v`, which does not parse back')
-# ---- C11
-for cl, ss in by_clause('C11', lambda e: 'cls_noinit' in e['signature']).items():
-  finding('C11', cl, ss, 'a class without a constructor of its own accepts a binding for ANY parameter name '
-          '(_might_have_parameter falls through to object.__init__, whose argspec has **kwargs)')
 # ---- C16
 for cl, ss in by_clause('C16', lambda e: 'bad_block_member' in e['signature']).items():
   finding('C16', cl, ss, 'a syntactic fault in a later member of an indented block discards the block\'s '
@@ -101,6 +94,8 @@ fixed = [
  ('C14', '8275931', 'a namespace package on sys.path made the package reader raise TypeError instead of moving on / IOError'),
  ('C06', 'ecf8852', 'config_str raised for values whose repr tokenizes badly or names unknown/ambiguous references'),
  ('C19', '4a00414', "config_str() put the dynamic-registration import after modules whose names sort before '__gin__', so the text did not parse"),
+ ('C11', '88efae2', 'a class without a constructor of its own accepted a binding for any parameter name (object.__init__ has **kwargs)'),
+ ('C06', 'f525abe', "a macro with a dotted name bound through bind_parameter('%pkg.name', v) was emitted as `pkg.name = v`, which does not parse back"),
  ('C15', '60af78b', 'under dynamic registration skip_unknown consulted only the registry (dropped importable-but-unregistered targets, kept registered-but-unimportable ones)'),
 ]
 for pid, commit, text in fixed:
